@@ -2,8 +2,8 @@
 (***************************************************************************)
 (* Property C12: what EHLO/LHLO advertises, as a function of the server    *)
 (* configuration and the TLS state, and what the server then honours.      *)
-(* The configuration space is finite (2048 configurations x TLS active or  *)
-(* not = 4096 states: the 3072 of the property plus TLS supplied by the    *)
+(* The configuration space is finite (4096 configurations x TLS active or  *)
+(* not = 8192 states: the 3072 of the property plus TLS supplied by the    *)
 (* caller's own listener without Server.TLSConfig) and is enumerated       *)
 (* completely, as initial states.                                          *)
 (***************************************************************************)
@@ -16,7 +16,10 @@ VARIABLES cfg, active    \* configuration; TLS currently active on the connectio
 Configs ==
   [utf8 : BOOLEAN, requireTLS : BOOLEAN, binarymime : BOOLEAN, dsn : BOOLEAN, rrvs : BOOLEAN,
    maxBytes : {0, N}, maxRcpt : {0, N}, tlsConfigured : BOOLEAN,
-   insecureAuth : BOOLEAN, authBackend : BOOLEAN, lmtp : BOOLEAN]
+   insecureAuth : BOOLEAN, authBackend : BOOLEAN, lmtp : BOOLEAN,
+   \* (with an auth-capable backend: does its session offer any mechanism at all?
+   \* an empty list is an extension that is not available)
+   authMechs : BOOLEAN]
 
 \* (TLS can be active without Server.TLSConfig: the caller's own TLS listener)
 Init == cfg \in Configs /\ active \in BOOLEAN
@@ -28,7 +31,7 @@ AuthAllowed == active \/ cfg.insecureAuth
 Caps ==
   {"PIPELINING", "8BITMIME", "ENHANCEDSTATUSCODES", "CHUNKING"}
   \cup (IF cfg.tlsConfigured /\ ~active THEN {"STARTTLS"} ELSE {})
-  \cup (IF AuthAllowed /\ cfg.authBackend THEN {"AUTH PLAIN"} ELSE {})
+  \cup (IF AuthAllowed /\ cfg.authBackend /\ cfg.authMechs THEN {"AUTH PLAIN"} ELSE {})
   \cup (IF cfg.utf8 THEN {"SMTPUTF8"} ELSE {})
   \cup (IF cfg.requireTLS /\ active THEN {"REQUIRETLS"} ELSE {})
   \cup (IF cfg.binarymime THEN {"BINARYMIME"} ELSE {})
@@ -53,7 +56,7 @@ Probes ==
     rcpt_rrvs       |-> IF cfg.rrvs THEN 250 ELSE 504,
     rcpt_beyond_max |-> IF cfg.maxRcpt > 0 THEN 452 ELSE 250,
     starttls        |-> IF cfg.tlsConfigured /\ ~active THEN 220 ELSE 502,
-    auth            |-> IF ~AuthAllowed THEN 523 ELSE IF cfg.authBackend THEN 235 ELSE 504,
+    auth            |-> IF ~AuthAllowed THEN 523 ELSE IF cfg.authBackend /\ cfg.authMechs THEN 235 ELSE 504,
     bdat            |-> 250 ]
 
 \* C12: everything advertised is honoured, everything the configuration
